@@ -84,6 +84,9 @@ func unitsFor(prop, tier string) []Unit {
 	if prop == "C02" || prop == "C08" {
 		us = append(us, Unit{Prop: prop, Tier: tier, Kind: "procx", Index: 0, Name: "realrunner/failure-kinds (real processes)"})
 	}
+	if prop == "C04" || prop == "C08" {
+		us = append(us, Unit{Prop: prop, Tier: tier, Kind: "conformance", Index: 0, Name: "conformance/mock-runner-vs-real-runner (12 scenarios)"})
+	}
 	if prop == "C02" || prop == "C08" {
 		// the same graph sweep in the build where every stage-status read / update is a scheduling point
 		for i := 0; i < chunkCount; i++ {
@@ -207,6 +210,8 @@ func runUnit(u Unit) UnitResult {
 		return runProcxUnit(u)
 	case "appx":
 		return runAppxUnit(u)
+	case "conformance":
+		return runConformanceUnit(u)
 	case "httpx":
 		return runHTTPXUnit(u)
 	case "defx":
@@ -375,6 +380,53 @@ func replayViolation(prop string, fv FoundViolation) ([]Violation, []string, err
 			}
 		}
 	}
+	// X2: configuration + history
+	if fv.Config != "" {
+		for _, tier := range []string{"quick", "thorough"} {
+			for _, c := range x2Configs(prop, tier) {
+				if c.Name != fv.Config {
+					continue
+				}
+				w := c.replayHist(nil)
+				var vs []Violation
+				for _, ev := range fv.Hist {
+					pre := w.Log[len(w.Log)-1].Dump
+					preLen := len(w.Log)
+					listed := listPipelines(w)
+					c.step(w, ev)
+					post := w.Log[len(w.Log)-1].Dump
+					vs = append(vs, c.check(w, pre, post, ev, preLen, listed)...)
+				}
+				if c.Drain && w.Drain(200) {
+					w.log(Event{Kind: EvQuiescent, Dump: w.dump(), Detail: "drain"})
+					vs = append(vs, c.checkDrained(w)...)
+				}
+				lines := logStrings(w)
+				var rc *restartCtx
+				if c.Restart {
+					rc = restartPhase1(w)
+				}
+				w.Close()
+				if rc != nil {
+					vs = append(vs, restartPhase2(rc)...)
+				}
+				return dedupV(vs), lines, nil
+			}
+		}
+	}
+	// every other engine: re-run the unit that reported it
+	for _, tier := range []string{"quick", "thorough"} {
+		for _, u := range unitsFor(prop, tier) {
+			if u.Name == name && u.Kind != "x1" && u.Kind != "x1chunk" && u.Kind != "x2" && u.Bin == "" {
+				r := runUnit(u)
+				var vs []Violation
+				for _, v := range r.Viol {
+					vs = append(vs, v.Violation)
+				}
+				return vs, r.Samples, nil
+			}
+		}
+	}
 	return nil, nil, fmt.Errorf("scenario %q not found", name)
 }
 
@@ -422,6 +474,20 @@ func c04Scenarios(tier string) []*Scenario {
 			Setup: func(w *World) {
 				w.SpawnDriver(Op{Kind: "S", Pipeline: "p"})
 				w.SpawnDriver(Op{Kind: "C", Job: 1, WaitAccepted: 1})
+			},
+			Check: chk, NoTick: true, FailOK: true, Bound: heavyBound(tier),
+		})
+	}
+	for _, cont := range []bool{false, true} {
+		cont := cont
+		cfg := PipeCfg{Conc: 1, QL: -1, Graph: graphPar, Continue: cont}
+		scs = append(scs, &Scenario{
+			Name: fmt.Sprintf("cancel-after-a-task-ended/par-with-failures/continue=%v", cont),
+			Desc: "two parallel tasks that may fail; the client cancels once the first of them has ended (so that a fail-fast stop may already be under way)",
+			Opts: func() WorldOpts { return WorldOpts{Defs: defsOf(cfg)} },
+			Setup: func(w *World) {
+				w.SpawnDriver(Op{Kind: "S", Pipeline: "p"})
+				w.SpawnDriver(Op{Kind: "C", Job: 1, WaitEvent: EvRunExit, WaitEventJob: 1})
 			},
 			Check: chk, NoTick: true, FailOK: true, Bound: heavyBound(tier),
 		})
